@@ -88,6 +88,11 @@ def gen_call(rng):
         args = [rng.choice(STRINGS)]
     elif f in ("concat", "tstrcmp"):
         args = [rng.choice(STRINGS), rng.choice(STRINGS)]
+        if f == "tstrcmp" and rng.random() < 0.4:
+            # one string a (proper) prefix of the other, either way round, the empty string included
+            long = rng.choice([s for s in STRINGS if s])
+            short = long[:rng.randrange(len(long) + 1)]
+            args = [short, long] if rng.random() < 0.5 else [long, short]
     elif f == "substring":
         s = rng.choice(STRINGS)
         args = [s, rng.choice([0, 1, 2, len(s), len(s) + 1, 65535, 32767, 32766, 16384, 32768]),
@@ -117,6 +122,12 @@ def oracle(rng, conv, f, args):
         return "%s: %s" % (what, r["raise"])
     vm, sym = r["vm"], r["symbols"]
     base, res = int(sym["regsave"]), int(sym["results"])
+    # whatever the function computes, it leaves 16-bit words behind (seed C02i: the register tstrcmp put the Python
+    # integer -1 into R1 when one string is a proper prefix of the other)
+    odd = [(k, v) for k, v in enumerate(vm.registers) if not 0 <= v <= 0xFFFF] + \
+          [("M[%d]" % a, v) for a, v in enumerate(vm.memory) if not 0 <= v <= 0xFFFF][:3]
+    if odd:
+        return "%s leaves values that are not 16-bit words: %r" % (what, odd[:4])
     want = expect(f, args)
     if isinstance(want, tuple) and want[0] == "halts":
         if want[1] not in r["out"] + r["err"]:
@@ -269,6 +280,27 @@ def getchar_oracle(conv, stdin, n):
     return None
 
 
+def io_frame_oracle(conv, fn, fp=40, sp=60):
+    """The input functions keep the calling contract too: back to the caller with FP and SP as they were (D66: the
+    register-convention getchar / getline came back with FP pointing into their own frame)."""
+    lines = ["#include <Tiger-stdlib-%s-data.hera>" % conv, "CBON()", "SET(FP, %d)" % fp, "SET(SP, %d)" % sp, "MOVE(R12, SP)"]
+    if conv == "stack":
+        lines += ["INC(SP, 3)", "CALL(R12, %s)" % fn, "DEC(SP, 3)"]
+    else:
+        lines.append("CALL(R12, %s)" % fn)
+    lines += ["MOVE(R5, FP)", "MOVE(R6, SP)", "SET(R11, 0x7e57)", "HALT()", "#include <Tiger-stdlib-%s.hera>" % conv]
+    r = sc.run("\n".join(lines) + "\n", stdin="hello\nworld\n")
+    what = "%s %s with FP = %d, SP = %d" % (conv, fn, fp, sp)
+    if "raise" in r:
+        return "%s: %s" % (what, r["raise"])
+    vm = r["vm"]
+    if vm.registers[11] != 0x7e57:
+        return "%s does not return to its caller" % what
+    if (vm.registers[5], vm.registers[6]) != (fp, sp):
+        return "%s: FP/SP after the call sequence are %d/%d" % (what, vm.registers[5], vm.registers[6])
+    return None
+
+
 def known_replays(ctx, findings):
     """D45: the stack-convention getline does not return to its caller."""
     out = []
@@ -277,6 +309,12 @@ def known_replays(ctx, findings):
             bad = None
             for conv in ("reg", "stack"):
                 bad = bad or getchar_oracle(conv, e["stdin"], 6)
+            out.append((e, bad is not None, bad))
+            continue
+        if e["id"] == "D66":
+            bad = None
+            for fn in e["functions"]:
+                bad = bad or io_frame_oracle("reg", fn)
             out.append((e, bad is not None, bad))
             continue
         if e["id"] == "D62":
@@ -320,6 +358,13 @@ def correspondence(ctx, model_available=True):
     r = sc.run(sc.program("stack", "getline", [], {k: k for k in range(1, 11)}), stdin="abc\n")
     if "raise" in r or r["vm"].registers[11] != 0x7e57:
         spec_failures.append({"what": "stack getline does not return to its caller", "function": "getline", "known_id": "D45"})
+    # the input functions and the frame
+    for conv, fn in (("reg", "getchar"), ("reg", "getline"), ("reg", "getchar_ord"), ("stack", "getchar"), ("stack", "getchar_ord"),
+                     ("reg", "ungetchar"), ("stack", "ungetchar"), ("reg", "flush"), ("stack", "flush")):
+        p = io_frame_oracle(conv, fn, rng.choice([0, 40, 300]), rng.choice([0, 7]) + 310)
+        st["calls"] += 1
+        if p:
+            spec_failures.append({"what": p, "function": fn, "convention": conv})
     # getchar_ord over several input lines
     for _ in range(12 if quick else 200):
         stdin = "".join(rng.choice(["", "a", "ab", "xyz", "hello", "\x01~"]) + "\n" for _ in range(rng.choice([1, 2, 3, 4])))
